@@ -79,7 +79,40 @@ func c16WalkerCorrespondence(c *Ctx) {
 	}
 }
 
+// c16CodecCorrespondence: hostile bytes to the ADTS / AudioSpecificConfig decoders and to the SEI extraction and the
+// typed SEI payload decoders, through the C18 / C17 line protocols (models: Model/Aac.lean, Model/Sei.lean).
+func c16CodecCorrespondence(c *Ctx) {
+	n := c.N(3000, 30000)
+	r := c.R
+	rb := func(max int) []byte {
+		b := make([]byte, r.Intn(max+1))
+		r.Read(b)
+		return b
+	}
+	for i := 0; i < n; i++ {
+		// ASC: random short strings
+		req := "asc.dec " + hx(rb(6))
+		c.Case(req, execC18(req))
+		// ADTS: random bytes with sync words sprinkled in
+		b := rb(24)
+		if len(b) > 2 && r.Intn(2) == 0 {
+			k := r.Intn(len(b) - 1)
+			b[k], b[k+1] = 0xff, 0xf0|byte(r.Intn(16))
+		}
+		req = "adts.dec " + hx(b)
+		c.Case(req, execC18(req))
+		// typed SEI payload decoders on payloads of every short length
+		for _, op := range []string{"tc.dec", "mdcv.dec", "cll.dec"} {
+			req = op + " " + hx(rb(30))
+			c.Case(req, execC17(req))
+		}
+		// SEI extraction on random RBSP data
+		req = "sei.extract " + hx(rb(40))
+		c.Case(req, execC17(req))
+	}
+}
+
 func init() {
 	// development entry (the C16 property entry calls c16WalkerCorrespondence from its generator)
-	props["C16m"] = &propDef{rule: "dev: hostile walker correspondence only", gen: c16WalkerCorrespondence, exec: execC14}
+	props["C16m"] = &propDef{rule: "dev: hostile walker correspondence only", gen: func(c *Ctx) { c16WalkerCorrespondence(c); c16CodecCorrespondence(c) }, exec: execC14}
 }
